@@ -276,41 +276,46 @@ def reprStrList (l : List Str) : Str :=
 def addE (c : Chunk) (flag ctx : Str) : Chunk :=
   { c with fl := { c.fl with e := c.fl.e ++ [.str flag], el := c.fl.el ++ [.tup [.str flag, .str ctx]] } }
 
+/-- the error flag written when the previously staged Twp/Rge was never used -/
+def flagUnusedTR (c : Chunk) : Chunk :=
+  match c.workingTR with
+  | some w => if !c.lastTRUsed && w != ERR_TWPRGE then addE c (S "twprge_error<" ++ w ++ S ">") (S "<" ++ w ++ S ">") else c
+  | none => c
+
 def getNextTwprge (c : Chunk) : Chunk :=
-  let c := match c.workingTR with
-    | some w => if !c.lastTRUsed && w != ERR_TWPRGE then addE c (S "twprge_error<" ++ w ++ S ">") (S "<" ++ w ++ S ">") else c
-    | none => c
-  let c := { c with lastTRUsed := false }
+  let c := flagUnusedTR c
   match c.trList with
-  | t :: rest => { c with workingTR := some t, trList := rest }
-  | [] => { c with workingTR := some ERR_TWPRGE }
+  | t :: rest => { c with lastTRUsed := false, workingTR := some t, trList := rest }
+  | [] => { c with lastTRUsed := false, workingTR := some ERR_TWPRGE }
 
 def optStrPy (o : Option Str) : Str := o.getD (S "None")
 
+/-- `self.working_sec not in [None, ERR_SEC]`: a list never equals the str ERR_SEC, so only None is exempt -/
+def flagUnusedSec (c : Chunk) : Chunk :=
+  match c.workingSec with
+  | some w =>
+    if !c.lastSecUsed then
+      addE c (S "sec_error<" ++ reprStrList w ++ S ">") (S "<" ++ reprStrList w ++ S "/" ++ optStrPy c.workingTR ++ S ">")
+    else c
+  | none => c
+
 def getNextSec (c : Chunk) : Chunk :=
-  -- `self.working_sec not in [None, ERR_SEC]`: a list never equals the str ERR_SEC
-  let c := match c.workingSec with
-    | some w =>
-      if !c.lastSecUsed then
-        addE c (S "sec_error<" ++ reprStrList w ++ S ">") (S "<" ++ reprStrList w ++ S "/" ++ optStrPy c.workingTR ++ S ">")
-      else c
-    | none => c
-  let c := { c with lastSecUsed := false }
+  let c := flagUnusedSec c
   match c.secList with
-  | s :: rest => { c with workingSec := some s, secList := rest }
-  | [] => { c with workingSec := some [ERR_SEC] }
+  | s :: rest => { c with lastSecUsed := false, workingSec := some s, secList := rest }
+  | [] => { c with lastSecUsed := false, workingSec := some [ERR_SEC] }
 
 def stage (c : Chunk) (desc : Str) (sec : Option (List Str)) (tr : Option Str) : Chunk :=
   { c with comps := c.comps ++ [{ desc := desc, sec := sec, twprge := tr }] }
 
 /-- `_parse_copyall` -/
-def parseCopyAll (c : Chunk) (txt : Str) : M Chunk := do
-  let c := getNextSec c
-  let sec ← match c.workingSec with
-    | some (s :: _) => pure [s]
-    | _ => throw PyErr.indexError
-  let c := getNextTwprge c
-  return stage c txt (some sec) c.workingTR
+def parseCopyAll (c : Chunk) (txt : Str) : M Chunk :=
+  let c1 := getNextSec c
+  match c1.workingSec with
+  | some (s :: _) =>
+    let c2 := getNextTwprge c1
+    .ok (stage c2 txt (some [s]) c2.workingTR)
+  | _ => .error PyErr.indexError       -- `sec[0]` on an empty list
 
 def sDescLays (layout : Str) : Bool := layout == TRS_DESC || layout == S_DESC_TR
 def trFirstLays (layout : Str) : Bool := layout == TRS_DESC || layout == TR_DESC_S
